@@ -1,5 +1,5 @@
 """C02 -- log_z, n_eff, eta and weights are exactly the estimators of the stored samples."""
-from ..sampler_rules import rule_L1_sampler, rule_L5
+from ..sampler_rules import rule_L1_sampler, rule_L5, rule_L1d_transition
 from ..pathrules import rule_T3, rule_T8i
 from ..agree import rule_A2_A6, rule_Q3
 from ..lockstep import rule_derived
@@ -14,12 +14,7 @@ LEVEL_TEXT = ('Static lockstep, dirty=>recompute, proposal-accounting and siblin
 
 def run(ctx):
     rule_L1_sampler(ctx, {'shell'})
-    ctx.rule('L1d', 'transition-time members: shell_n_sample_exp / shell_end_exp are recorded '
-             'after the last removal of an empty shell on every path')
-    run_f = ctx.program.func('Sampler.run')
-    tr = SamplerTracker(run_f, G_SHELL.members + ['shell_n_sample_exp', 'shell_end_exp'])
-    rule_derived(ctx, 'L1d', run_f, 'shell_n_sample', 'shell_n_sample_exp', tr)
-    rule_derived(ctx, 'L1d', run_f, 'points', 'shell_end_exp', tr)
+    rule_L1d_transition(ctx)
     rule_T3(ctx)
     rule_T8i(ctx)
     rule_Q3(ctx)
